@@ -466,7 +466,10 @@ static struct precalc_s {
 		us %= SECS_PER_MIN;
 	}
 	if (f.has_sec) {
-		res.S = us + __strf_tot_corr(dur);
+		/* US is an absolute value by now, the leap correction
+		 * carries the sign of the duration */
+		const long int corr = __strf_tot_corr(dur);
+		res.S = us + (!res.neg ? corr : -corr);
 	}
 	if (f.has_nano) {
 		if (dur.durtyp == DT_DURNANO) {
@@ -590,7 +593,8 @@ __strfdtdur(
 			/* time specs */
 		case DT_SPFL_N_TSTD:
 			if (UNLIKELY(spec.tai)) {
-				pre.S += __strf_tot_corr(dur);
+				const long int corr = __strf_tot_corr(dur);
+				pre.S += !pre.neg ? corr : -corr;
 			}
 			bp += ltostr(bp, eo - bp, pre.S, -1, DT_SPPAD_NONE);
 			*bp++ = 's';
@@ -598,7 +602,8 @@ __strfdtdur(
 
 		case DT_SPFL_N_SEC:
 			if (UNLIKELY(spec.tai)) {
-				pre.S += __strf_tot_corr(dur);
+				const long int corr = __strf_tot_corr(dur);
+				pre.S += !pre.neg ? corr : -corr;
 			}
 
 			bp += ltostr(bp, eo - bp, pre.S, 2, spec.pad);
